@@ -116,7 +116,11 @@ func executeCompaction(db *DB) (compactionMetadata *proto.CompactionMetadata, er
 		}
 	}()
 
+	// tombstones may only be dropped when no older table is left out that they could still shadow
 	reduceFunc := sstables.ScanReduceLatestWinsSkipTombstones
+	if !db.sstableManager.isOldestTable(paths[0]) {
+		reduceFunc = scanReduceLatestWinsKeepTombstones
+	}
 	err = sstables.NewSSTableMerger(db.cmp).MergeCompact(iterators, writer, reduceFunc)
 	if err != nil {
 		return nil, err
@@ -169,4 +173,14 @@ func saveCompactionMetadata(writeFolder string, compactionMetadata *proto.Compac
 	}
 
 	return nil
+}
+
+// scanReduceLatestWinsKeepTombstones is sstables.ScanReduceLatestWins, but a tombstone is carried over as an empty
+// value, which reads as deleted and is dropped by a later compaction that includes the oldest table.
+func scanReduceLatestWinsKeepTombstones(key []byte, values [][]byte, context []int) ([]byte, []byte) {
+	key, val := sstables.ScanReduceLatestWins(key, values, context)
+	if len(val) == 0 {
+		return key, []byte{}
+	}
+	return key, val
 }
